@@ -6,6 +6,7 @@ import (
 	"fmt"
 	"math/rand"
 	"sort"
+	"strings"
 	"time"
 
 	"go.sia.tech/core/consensus"
@@ -14,6 +15,7 @@ import (
 
 // Sim grows a chain block by block with random valid transactions of every kind.
 type Sim struct {
+	Monthly bool // Foundation subsidy due every 1-3 blocks (mode suffix "-monthly")
 	Net     *consensus.Network
 	Genesis types.Block
 	Rng     *rand.Rand
@@ -86,8 +88,15 @@ func RandomNetwork(rng *rand.Rand, mode string) *consensus.Network {
 }
 
 func NewSim(rng *rand.Rand, mode string) *Sim {
-	s := &Sim{Rng: rng, Mode: mode, W: NewWallet(rng, 6), St: NewStore(), Files: map[types.Hash256][]byte{}, Counts: map[string]int{}, MaxTxns: 6}
+	monthly := strings.HasSuffix(mode, "-monthly")
+	mode = strings.TrimSuffix(mode, "-monthly")
+	s := &Sim{Rng: rng, Mode: mode, Monthly: monthly, W: NewWallet(rng, 6), St: NewStore(), Files: map[types.Hash256][]byte{}, Counts: map[string]int{}, MaxTxns: 6}
 	s.Net = RandomNetwork(rng, mode)
+	if monthly {
+		// blocksPerYear = 12k exactly, so the Foundation subsidy falls due every k blocks
+		k := 1 + rng.Intn(3)
+		s.Net.BlockInterval = 365 * 24 * time.Hour / time.Duration(12*k)
+	}
 	t0 := s.Net.HardforkOak.GenesisTimestamp
 	// foundation addresses are wallet addresses so that updates can be authorised
 	fp := s.W.NewRecipeKind("uc1", 0, t0)
@@ -1046,6 +1055,12 @@ func (s *Sim) v2Foundation(ctx *blockCtx) (*v2Pending, error) {
 		na := s.W.NewRecipeKind("uc1", 0, ctx.ts)
 		p.txn.SiacoinOutputs = []types.SiacoinOutput{{Value: e.SiacoinOutput.Value, Address: na.Addr}}
 		addr := na.Addr
+		if s.Monthly && s.Rng.Intn(3) == 0 {
+			// waive the subsidy: the void address (the management address stays as it is)
+			addr = types.VoidAddress
+			p.txn.SiacoinOutputs[0].Address = a
+			s.Counts["v2:foundation-waiver"]++
+		}
 		p.txn.NewFoundationAddress = &addr
 		s.Counts["v2:foundation-update"]++
 		return p, nil
